@@ -249,6 +249,7 @@ HEADER = ("(* GENERATED on every run by vlib/translate.py from the current sourc
 #   local_state  the state record holds loop-carried LOCALS (idx) instead of fields of self; with select="before_loop" the
 #            statements before the method's only top-level while are translated (the initial record), with select="loop"
 #            the while itself: one evaluation of its test, then the body (loop_again) or what follows the loop
+#            (`for i, x in enumerate(C)` with C observed through len: the test is i < len(C), i += 1 after the body, i starts at 0)
 #   loop_again  constructor: a top-level `while True:` is translated as ONE iteration: `break` goes on with what follows
 #            the loop; reaching the end of the body appends the constructor and ends the path (the next iteration is
 #            the same body again, on the values the effects left behind)
@@ -782,6 +783,28 @@ class FxTr:
             self.counters = dict(saved)
             b = self.block(rest, env, k)
             return f"(if {c}\n then " + _ind(a, 6) + "\n else " + _ind(b, 6) + ")"
+        if isinstance(s, ast.For):
+            # `for i, x in enumerate(<collection observed through len>):` as ONE iteration: i is a loop-carried local of the
+            # state record (it starts at 0: enumerate), the test is i < len, x is only read through listed observations;
+            # after the body i += 1 and the loop goes round again
+            ok = (self.spec.loop_again and self.spec.local_state and not s.orelse and env["ctl"][1] is None
+                  and isinstance(s.iter, ast.Call) and isinstance(s.iter.func, ast.Name) and s.iter.func.id == "enumerate"
+                  and len(s.iter.args) == 1 and not s.iter.keywords and isinstance(s.target, ast.Tuple)
+                  and len(s.target.elts) == 2 and all(isinstance(t, ast.Name) for t in s.target.elts)
+                  and ("local", s.target.elts[0].id) in env["vars"])
+            if not ok:
+                raise Unsupported("for (only `for i, x in enumerate(<observed collection>)` with loop_again and i in the local state)")
+            iname = s.target.elts[0].id
+            n = self.expr(ast.Call(func=ast.Name(id="len", ctx=ast.Load()), args=[s.iter.args[0]], keywords=[]), env)
+            c = f"(Z.ltb {env['vars'][('local', iname)].term} {n.term})"
+            env2 = self.copy(env)
+            env2["ctl"] = (env["ctl"][0], (rest, k))
+            step = ast.AugAssign(target=ast.Name(id=iname, ctx=ast.Store()), op=ast.Add(), value=ast.Constant(value=1))
+            saved = dict(self.counters)
+            a = self.block(list(s.body) + [step, _EndLoop()], env2, k)
+            self.counters = dict(saved)
+            b = self.block(rest, env, k)
+            return f"(if {c}\n then " + _ind(a, 6) + "\n else " + _ind(b, 6) + ")"
         if isinstance(s, _EndLoop):                      # the body ran to its end: the next iteration is the same body again
             env2 = self.copy(env)
             env2["fx"][1].append(self.spec.loop_again)
@@ -1126,9 +1149,9 @@ def translate_fn(spec, state, record, prefix, effect_type):
         # `<initialisation>; while ..: ..; <rest>`: "before_loop" = the initialisation alone (the loop-carried locals are the
         # state record: local_state), "loop" = ONE iteration of the while (and what follows it when it ends)
         stmts = [x for x in stmts if not (isinstance(x, ast.Expr) and isinstance(x.value, ast.Constant))]
-        pos = [i for i, x in enumerate(stmts) if isinstance(x, ast.While)]
+        pos = [i for i, x in enumerate(stmts) if isinstance(x, (ast.While, ast.For))]
         if len(pos) != 1:
-            raise Unsupported(f"{spec.cls}.{spec.method}: not exactly one top-level while")
+            raise Unsupported(f"{spec.cls}.{spec.method}: not exactly one top-level loop")
         stmts = stmts[:pos[0]] if spec.select == "before_loop" else stmts[pos[0]:]
     elif spec.select == "sample_loop_body":
         # `while True: yield <wait>; for x in <iterable>: <statements>`: the statements for ONE x (x is a listed observation;
